@@ -67,7 +67,16 @@ fn serialize_object(
     bytes.push(markers::OBJECT_MARKER);
 
     for (name, value) in properties {
-        // TODO: Add check that property name isn't greater than a u16
+        // An empty name can't be told apart from the object end marker, and the
+        // name's length has to fit into a u16
+        if name.is_empty() {
+            return Err(Amf0SerializationError::EmptyObjectPropertyName);
+        }
+
+        if name.len() > (u16::max_value() as usize) {
+            return Err(Amf0SerializationError::NormalStringTooLong);
+        }
+
         bytes.write_u16::<BigEndian>(name.len() as u16)?;
         bytes.extend(name.as_bytes());
         serialize_value(&value, bytes)?;
